@@ -87,6 +87,7 @@ type Engine struct {
 	globals     map[*ssa.Global]ObjID
 	initPkgs    map[string]bool
 
+	rtypeT      types.Type
 	runtimeErrT types.Type
 	panicNilT   types.Type
 
